@@ -66,6 +66,15 @@ KEYS_REF = (
     "    key_size = max(1, prod(key_shape))\n"
     "    return jnp.reshape(jr.split(key, key_size), (*key_shape, 2))\n")
 
+# jax.random.split accepts a shape: split(key, S) has shape (*S, 2) - one distinct key per requested draw
+KEYS_REF_SHAPED = (
+    "def _get_sample_keys(self, key, sample_shape, condition):\n"
+    "    if self.cond_ndim is not None:\n"
+    "        leading_cond_shape = condition.shape[: -self.cond_ndim or None]\n"
+    "    else:\n"
+    "        leading_cond_shape = ()\n"
+    "    return jr.split(key, sample_shape + leading_cond_shape)\n")
+
 BIJ_VEC_REF = (
     "def vectorize(self, func, *, log_det=False):\n"
     "    in_shapes, out_shapes = [self.bijection.shape], [self.bijection.shape]\n"
@@ -116,7 +125,9 @@ def run(prog: Program, rep: Report, tier: str):
                          "(no shortcut that broadcasts one key); cond_ndim = None iff unconditional", minimum=3)
     got = Interp(prog).eval_method(c, "_get_sample_keys", [KEY, SS, CONDS])
     want = eval_ref_method(prog, c, KEYS_REF, [KEY, SS, CONDS])
-    compare(rep, "C06.keys", method_site(prog, c, "_get_sample_keys"), "AbstractDistribution._get_sample_keys", got, want, "keys")
+    alt = eval_ref_method(prog, c, KEYS_REF_SHAPED, [KEY, SS, CONDS])
+    compare(rep, "C06.keys", method_site(prog, c, "_get_sample_keys"), "AbstractDistribution._get_sample_keys", got, want, "keys",
+            alternatives=(alt,))
     got = Interp(prog).eval_method(c, "cond_ndim", [])
     want = eval_ref_method(prog, c, "def cond_ndim(self):\n    return None if self.cond_shape is None else len(self.cond_shape)\n", [])
     compare(rep, "C06.keys", method_site(prog, c, "cond_ndim"), "AbstractDistribution.cond_ndim", got, want, "cond_ndim")
